@@ -200,6 +200,8 @@ class POP(BaseModelSingleSet):
     def _fit_algorithm(self, X: DataArray) -> Self:
         sample_name = self.sample_name
         feature_name = self.feature_name
+        # A new fit yields unsorted modes
+        self.sorted = False
 
         # Transform in PC space
         X = self.pca.fit_transform(X)
